@@ -8,7 +8,16 @@ ABM_TECH = "TLA+ spec (spec/Abm.tla) + TLC exhaustive invariants; TLC-generated 
 SRV_TECH = "TLA+ spec (spec/Server.tla) + TLC exhaustive invariants/action properties; TLC-generated request histories replayed into a real BptkServer (Flask test client, controlled clock, FileAdapter on a scratch directory) with every response compared"
 EXPR_TECH = "TLA+ spec (spec/Expr.tla + spec/Rat.tla: expression trees, exact rational reference semantics, concrete-syntax renderers) enumerated exhaustively by TLC; every enumerated tree evaluated by the implementation and compared with the spec's value"
 SD_TECH = "TLA+ spec (spec/SdModel.tla over spec/Rat.tla: explicit-Euler state machine with exact rational arithmetic, EulerRelation/FlowsNonNegative/GridExact checked by TLC); every TLC-generated trajectory replayed into the implementation and compared element by element at every grid time"
+SCN_TECH = "TLA+ spec (spec/Scenario.tla: managers, scenarios, settings, explicit object identity of points dictionaries, one session) + TLC exhaustive invariants/action properties; TLC-generated operation histories replayed into a real bptk object with the results of every scenario and of the base model compared after every action against a fresh computation carrying exactly the settings in force"
 CHECKS = {
+ "C06": dict(cat="model_checking", ref="6/C06",
+    text="spec/Scenario.tla: TLC checks BaseIntact and the action property Isolated (an action on one scenario leaves what every other scenario is simulated with unchanged) exhaustively; the shared-dictionary deviation violates BaseIntact in the spec. Histories over 1-2 managers registered from one base model and 2-3 scenarios (register with/without constants, points, run specs and manager base values; batch run; REST /run settings; set_property_value; begin/step/end of a session with settings; cache reset) are replayed (all histories of length 3-5 plus long random ones); after EVERY action all scenarios and the base model object are evaluated and compared",
+    note="a scenario in a live session is not run in batch at the same time; step settings only on scenarios that list the value (KF-C07-1)",
+    tech=SCN_TECH),
+ "C07": dict(cat="model_checking", ref="6/C07",
+    text="spec/Scenario.tla: TLC checks Exact (a scenario is simulated with its own settings over the manager's base values over the model's) and NoOverrideMeansModel exhaustively; deviation D23 violates Exact. Delivery channels replayed: dict registration with base constants/points and run specs (all 162 combinations exhaustively), later settings through POST /run, begin_session settings, run_step settings, set_property_value (DSL model, run specs included), and JSON scenario files spread over two files with an XMILE-sourced model (constants, points; every registration combination of two scenarios under base values living in different files, run in fresh processes)",
+    note="known finding KF-C07-1 reproduced on its canonical history only; run specs only for DSL models",
+    tech=SCN_TECH),
  "C01": dict(cat="model_checking", ref="6/C01",
     text="spec/SdModel.tla: one Euler step per transition for a reference family (4 stocks with non-negative and bidirectional in/outflows, first-order and constant outflows, functions of elements written directly in stock equations, converters, lookup over TIME and over a stock, delay with/without initial value, smooth, trend, step, pulse) over parameter sets with rising/falling/sign-changing inputs and run specs start in {0,1,.5,2,..} x dt in {1,2,.5,.25,.2,.1,...}; each trajectory is built with the SD DSL (several spellings of the same mathematics) and compared at three observation points: Model.evaluate_equation, bptk.run_scenarios(df), Element.plot(return_df=True)",
     note="values beyond the spec's rational range are skipped (counted); trend initial average = DSL initial_value argument; transcendental / random built-ins are outside this technique (DESIGN 9)",
